@@ -35,6 +35,49 @@ fn chan_transcript(kind: Kind, n: usize, m: usize, streams: usize, droppy: bool,
     match r { Ok(t) => t, Err(e) => vec![R::Panic(panic_text(e))] }
 }
 
+/// what is known about a script that did not return: how many of its operations had answered, how many hook sites the thread had passed when the wait was given
+/// up and 1.5 s later (still taking steps = the library keeps retrying something), how long the fresh object took for the whole script
+#[derive(Clone, Debug)]
+pub struct Hung { pub answered: usize, pub steps_then: u64, pub steps_later: u64, pub waited_ms: u64 }
+
+/// `chan_transcript` on a thread of its own, given up after `wait`: the answers obtained so far are returned together with what is known about the thread, which is
+/// left behind (it may sit in one of the library's wait loops for good)
+fn chan_transcript_guarded(kind: Kind, n: usize, m: usize, streams: usize, droppy: bool, origin: Option<u32>, script: &[Op], leftovers: bool, wait: std::time::Duration) -> (Vec<R>, Option<Hung>) {
+    use std::sync::{atomic::{AtomicU64, Ordering::SeqCst}, Arc, Mutex};
+    let progress: Arc<Mutex<Vec<R>>> = Arc::new(Mutex::new(Vec::new()));
+    let steps = Arc::new(AtomicU64::new(0));
+    let (tx, rx) = std::sync::mpsc::channel();
+    let (p2, s2, script2) = (progress.clone(), steps.clone(), script.to_vec());
+    std::thread::Builder::new().name("c15-script".into()).spawn(move || {
+        crate::sched::count_steps_into(s2);
+        let r = std::panic::catch_unwind(std::panic::AssertUnwindSafe(|| {
+            let mut eng = Engine::new(kind, n, m, streams, droppy, origin).expect("instantiation");
+            eng.check_model = false;
+            for op in &script2 { let r = eng.step(*op); p2.lock().unwrap().push(r); }
+            if !leftovers { eng.finish(false) }
+            let before = crate::payload::RAW_DROPS.load(SeqCst);
+            let mut t = eng.teardown().0;
+            if droppy { t.push(R::Len((crate::payload::RAW_DROPS.load(SeqCst) - before) as u32)) }
+            t
+        }));
+        let _ = tx.send(match r { Ok(t) => t, Err(e) => vec![R::Panic(panic_text(e))] });
+    }).expect("spawn");
+    let t0 = std::time::Instant::now();
+    match rx.recv_timeout(wait) {
+        Ok(t) => (t, None),
+        Err(_) => {
+            let a = steps.load(SeqCst);
+            std::thread::sleep(std::time::Duration::from_millis(1500));
+            let b = steps.load(SeqCst);
+            if let Ok(t) = rx.try_recv() { return (t, None) }       // (it made it after all: a slow machine)
+            crate::sched::LEAKED_THREADS.fetch_add(1000, SeqCst);   // (a few of these and the shard stops early; the driver goes on in a fresh process)
+            let partial = progress.lock().unwrap().clone();
+            let answered = partial.len();
+            (partial, Some(Hung { answered, steps_then: a, steps_later: b, waited_ms: t0.elapsed().as_millis() as u64 }))
+        }
+    }
+}
+
 // ---- raw rings ----------------------------------------------------------------------------------------------------------------
 
 #[derive(Clone, Copy, Debug)]
@@ -123,6 +166,8 @@ fn single(args: &Args, acc: &mut Acc, seed: u64, verbose: bool) {
     let targets = ["channel", "channel", "channel", "ring.atomic", "ring.full_sync", "pool", "stream_ids"];
     let target = match args.only.as_deref() { Some(o) if targets.contains(&o) => o, _ => *rng.pick(&targets) };
     let sweep = acc.evaluations;
+    let mut hung: Option<Hung> = None;
+    let mut fresh_ms = 0u64;
     let (what, n, k, t0, tk, script_json): (String, usize, u32, Vec<R>, Vec<R>, J) = match target {
         "channel" => {
             let kinds: Vec<Kind> = chan::ALL_KINDS.iter().copied().filter(|k| *k != Kind::MultiMmap && *k != Kind::UniMoveCrossbeam && *k != Kind::MultiArcCrossbeam && args.only.as_deref().map(|o| o == "channel" || k.name() == o).unwrap_or(true)).collect();
@@ -141,8 +186,13 @@ fn single(args: &Args, acc: &mut Acc, seed: u64, verbose: bool) {
             let leftovers = rng.chance(1, 3);
             let k = origin_for(&mut rng, n, sweep);
             if droppy { crate::payload::tracker().set_enabled(false) }
+            let started = std::time::Instant::now();
             let t0 = chan_transcript(kind, n, m, streams, droppy, None, &script, leftovers);
-            let tk = chan_transcript(kind, n, m, streams, droppy, Some(k), &script, leftovers);
+            fresh_ms = started.elapsed().as_millis() as u64;
+            // the same script on the object whose counters start at k, on a thread of its own: should it not return (the fresh object just did, in `fresh_ms`),
+            // the answers it gave so far are compared all the same
+            let (tk, h) = chan_transcript_guarded(kind, n, m, streams, droppy, Some(k), &script, leftovers, std::time::Duration::from_millis(5000 + 200 * fresh_ms));
+            hung = h;
             if droppy { crate::payload::tracker().set_enabled(true); let _ = crate::payload::tracker().take_problems(); }
             (format!("{}<N={n},M={m}>{}{}", kind.name(), if droppy { " droppable payload" } else { "" }, if leftovers { " teardown with leftovers" } else { "" }), n, k, t0, tk, seq::script_json(&script[..script.len().min(60)]))
         }
@@ -181,7 +231,25 @@ fn single(args: &Args, acc: &mut Acc, seed: u64, verbose: bool) {
     if near { acc.count("origins_within_the_window_around_the_32bit_boundary", 1) }
     acc.nontrivial(mix(t0.iter().fold(seed & 0xFF, |h, r| mix(h, match r { R::Ok => 1, R::Full => 2, R::Got(i) => 3 + (*i << 4), R::Nothing => 4, R::True => 5, R::False => 6, R::Len(l) => 7 + ((*l as u64) << 4), R::Skipped => 8, R::Panic(_) => 9 })), k as u64));
     acc.sample(3, || J::obj().with("target", J::s(&what)).with("origin_k", J::i(k as i64)).with("script", script_json.clone()).with("transcript_head", J::Arr(t0.iter().take(12).map(|r| J::s(format!("{:?}", r))).collect())));
-    if let Some(i) = first_difference(&t0, &tk) {
+    if let Some(h) = &hung {
+        // the script did not return on the object with advanced counters. Evidence, in this order: (1) an answer that already differs within what both runs completed --
+        // decided below like any other difference; (2) the thread is still taking steps (the library retries something, for seconds, that took the fresh object no time):
+        // the operation does not complete -- a violation; (3) no step in 1.5 s: nothing can be said (inconclusive)
+        acc.count("scripts_that_did_not_return_with_advanced_counters", 1);
+        let differs_already = (0..h.answered.min(t0.len())).any(|i| t0.get(i) != tk.get(i));
+        if !differs_already {
+            if h.steps_later > h.steps_then {
+                let v = J::obj()
+                    .with("what", J::s(format!("{what}: with the sequence counters starting at {k} ({k:#x}) operation #{} of the script ({:?}) does not return: {} ms after the start the library is still retrying ({} hook sites passed, {} more in the next 1.5 s); the fresh object answered the whole script of {} operations in {fresh_ms} ms (that answer: {:?})", h.answered, t0.get(h.answered), h.waited_ms, h.steps_then, h.steps_later - h.steps_then, t0.len(), t0.get(h.answered))))
+                    .with("sigs", J::Arr(vec![J::obj().with("anomaly", J::s("does_not_return_with_advanced_counters")).with("target", J::s(target)).with("flavor", J::s(&args.flavor)).with("origin_in_wrap_window", J::Bool(near))]))
+                    .with("origin_k", J::i(k as i64)).with("script", script_json.clone()).with("transcript_fresh", J::Arr(t0.iter().take(80).map(|r| J::s(format!("{:?}", r))).collect()))
+                    .with("transcript_origin_k_until_it_stopped_answering", J::Arr(tk.iter().take(80).map(|r| J::s(format!("{:?}", r))).collect()));
+                file_violation(args, acc, seed, verbose, v);
+            } else { acc.inconclusive += 1; acc.count("scripts_that_did_not_return_and_took_no_step_either(inconclusive)", 1) }
+            return
+        }
+    }
+    if let Some(i) = first_difference(&t0, &tk[..if hung.is_some() { tk.len().min(t0.len()) } else { tk.len() }]).filter(|i| hung.is_none() || *i < tk.len()) {
         let panicked = matches!(tk.get(0), Some(R::Panic(_))) || matches!(t0.get(0), Some(R::Panic(_)));
         let v = J::obj()
             .with("what", J::s(format!("{what}: the same script answers differently when the sequence counters start at {k} ({:#x}) instead of 0: step {i}: fresh -> {:?}, after {k} earlier events -> {:?}", k, t0.get(i), tk.get(i))))
